@@ -179,8 +179,66 @@ PAIR_COVERS = ["add-clone", "add-outlier", "remove-clone", "remove-outlier"]
 def verify_all(ctx, repo, prop):
     dsl.verify(ctx, repo, dsl.Registry(), prop, [TN + ".add_data_point", TN + ".remove_data_point"], h_node_add_remove, expect_covers=NODE_COVERS)
     dsl.verify(ctx, repo, dsl.Registry(), prop, [TN + ".__init__", TN + ".__copy__"], h_node_init_copy, expect_covers=["init-copy"])
+    dsl.verify(ctx, repo, dsl.Registry(), prop, TN + ".add_data_point_list", h_node_add_list, expect_covers=ADD_LIST_COVERS)
     dsl.verify(ctx, repo, dsl.Registry(), prop, [TR + "._internal_add_data_point_to_node", TR + ".remove_data_point_from_node"], h_tree_pairing, expect_covers=PAIR_COVERS)
     from contracts import c06_graph as G
 
     G.verify_all(ctx, repo, prop)
     ctx.trust("np.full / ndarray.copy / in-place += and -= (Arr2 model)")
+
+
+def h_node_add_list(I, fi):
+    """TreeNode.add_data_point_list: for any list length the loop adds every point's grid to log_p AND log_r in place (inductive step
+    on an arbitrary element from arbitrary array contents; both arrays stay the node's own objects); the index-set prologue
+    (set comprehension / isdisjoint / update) is executed for lists of length 0, 1 and 2 (bounded in the list length)."""
+    P = I.P
+    D, G, d, k = dims(I)
+    n_pts = P.decide(3)
+    other = alg.sym("idx_other", "Int")
+    pts = [DPv("p%d" % i, D, G) for i in range(n_pts)]
+    for p_ in pts:
+        P.assume(P.z(p_.idx) != P.z(other))
+    if n_pts == 2:
+        P.assume(P.z(pts[0].idx) != P.z(pts[1].idx))
+    node = node_obj(I, fi.cls, D, G, has=[other])
+    lp, lr = node.fields["log_p"], node.fields["log_r"]
+    st = {}
+
+    def loop(I_, lnode, fr):
+        seq = I_.eval(lnode.iter, fr)
+        P.check("node.add-list.loop-over-the-list", seq is pts, "the accumulation loop ranges over the list handed in", kind="post")
+        P.check("node.add-list.aliases", fr.vars.get("log_p") is lp and fr.vars.get("log_r") is lr, "the loop works on the node's own arrays", kind="post")
+        mode = P.decide(2)
+        if mode == 1:
+            st["after"] = True
+            return  # the prologue's effect is checked on the path that skips the loop
+        # inductive step: arbitrary contents, arbitrary element
+        a, b = Arr2.symbolic("acc_p", D, G), Arr2.symbolic("acc_r", D, G)
+        fr.vars["log_p"], fr.vars["log_r"] = a, b
+        e = DPv("elem", D, G)
+        I_.assign_target(lnode.target, e, fr)
+        dsl.cover(I_, "node.add-list.step")
+        I_.exec_block(lnode.body, fr)
+        v = alg.raw_app("val_elem", d, k)
+        P.check("node.add-list.step", fr.vars.get("log_p") is a and fr.vars.get("log_r") is b
+                and bool(alg.is_identically_zero(I_.to_num(a.at(I_, d, k)) - alg.raw_app("acc_p", d, k) - v)) and bool(alg.is_identically_zero(I_.to_num(b.at(I_, d, k)) - alg.raw_app("acc_r", d, k) - v))
+                and e.value.writes == 0, "one iteration adds the point's grid to log_p and to log_r, in place, and only reads the grid (so after the loop both hold their old contents plus the sum of all grids)", kind="post")
+        raise PathEnd()
+
+    I.registry.loop_invariants[(fi.qualname, 0)] = loop
+    I.call_function(fi, [node, pts], {}, force_inline=True)
+    if not st.get("after"):
+        return
+    dsl.cover(I, "node.add-list.prologue-%d" % n_pts)
+    from pyvc.interp import SBool
+    s_ = node.fields["data_points"]
+
+    def tv(b):
+        return b.e if isinstance(b, SBool) else z3.BoolVal(bool(b))
+
+    goal = [tv(I.truth(I.contains(s_.items, other)))] + [tv(I.truth(I.contains(s_.items, p_.idx))) for p_ in pts]
+    P.check("node.add-list.membership", z3.And(goal) if goal else True, "the node's index set gains exactly the listed points (lists of length <= 2)", kind="post")
+    P.check("node.add-list.set-size", len(s_.items) == 1 + n_pts, "nothing else enters the index set", kind="post")
+
+
+ADD_LIST_COVERS = ["node.add-list.step", "node.add-list.prologue-0", "node.add-list.prologue-1", "node.add-list.prologue-2"]
